@@ -196,8 +196,9 @@ class SpawnProcess(multiprocessing.context.SpawnProcess):
             result = self._result_and_error_.recv()
             error = self._result_and_error_.recv()
 
-        except EOFError as exc:
+        except (EOFError, OSError) as exc:
             # the process has been terminated by calling ``self.terminate()``
+            # (`OSError`: it died in the middle of sending a message)
             exitcode = -self._peek_exitcode()
             if exitcode == errno.ENOTBLK:  # 15
                 # warnings.warn(
@@ -218,6 +219,11 @@ class SpawnProcess(multiprocessing.context.SpawnProcess):
                 # helper thread, which would leave the future unresolved forever.
                 error = OSError(exitcode, msg)
                 error.__cause__ = exc
+
+        except Exception as exc:
+            # The outcome arrived but can not be unpickled in this process.
+            # Report that through the future rather than dying with it unresolved.
+            result, error = None, exc
 
         self._logger_queue_.put(None)
         self._result_and_error_.close()
